@@ -1,8 +1,9 @@
 import GcmpyModel.Properties.C16Clique
 import GcmpyModel.Properties.C16Counts
 /-
-Property C16, assembled: what is known about the two closed forms and the counting recursion, with every hypothesis
-reduced to ONE open statement — Cayley's formula for the brute-force counter, `cayley_connCount`
+Property C16, assembled: the two closed forms and the counting recursion, with every hypothesis reduced to ONE statement —
+Cayley's formula for the brute-force counter, `cayley_connCount` (PROVED in `Properties/C16Cayley.lean`, which states the
+unconditional corollaries `Q_eq_connCount`, `Q_eq_Qgen_all`, `clique_exact`, `Q_eq_QQ`)
 (`connCount n (n-1) = n^(n-2)`), which is exactly what the Python code's shortcut `if k == n-1: return n**(n-2)` assumes.
 
 * `clique_exact_le12`      unconditional: for `1 ≤ τ ≤ 12` the clique closed form IS the automated equation on `K_τ`
